@@ -5,6 +5,7 @@ import (
 
 	"github.com/luthersystems/elps/elpsutil"
 	"github.com/luthersystems/elps/lisp"
+	"github.com/luthersystems/elps/lisp/lisplib"
 	"github.com/luthersystems/elps/parser"
 )
 
@@ -147,3 +148,22 @@ func keepBuiltin(dst **lisp.LVal) lisp.LBuiltinDef {
 		return args.Cells[0]
 	})
 }
+
+// evalSrc reads src and evaluates its forms with Eval (which, unlike Load, does not restore the
+// current package afterwards).
+func evalSrc(env *lisp.LEnv, src string) *lisp.LVal {
+	exprs, err := env.Runtime.Reader.Read("src", strings.NewReader(src))
+	if err != nil {
+		return lisp.Errorf("read: %v", err)
+	}
+	res := lisp.Nil()
+	for _, e := range exprs {
+		res = env.Eval(e)
+		if res.Type == lisp.LError {
+			return res
+		}
+	}
+	return res
+}
+
+func loadStdlib(env *lisp.LEnv) *lisp.LVal { return lisplib.LoadLibrary(env) }
